@@ -490,6 +490,164 @@ def size0_probe(py4hw):
 
 
 
+
+# ------------------------------------------------------------------ composed codec under construction histories
+# The decoder and the encoder share the start_resp wire (as in createHILUART); the bench plays the output multiplexer
+# (on a set_index_out cycle it puts the selected value / size on the encoder's vin / size).  What varies is HOW the
+# circuit came to be: where the blocks live (directly under the HWSystem, inside a wrapper Logic, two levels deep),
+# in which order they are instantiated, and at which points of that history the simulator was already obtained and
+# run (hw.getSimulator() re-sorts the schedule on every call: a block added later must be simulated like any other).
+CONTAINERS = ['top', 'wrap', 'wrap2', 'split']          # split: decoder in one wrapper, encoder in another
+ORDERS = ['dec-enc', 'enc-dec']
+SIM_POINTS = ['none', 'empty', 'between', 'empty+between']   # when the simulator is obtained (and used) before the circuit is complete
+
+
+def history_cases(rng, n):
+    """n histories: the cross product first (shuffled deterministically by rng), each with a pacing pattern."""
+    base = [(c, o, s) for c in CONTAINERS for o in ORDERS for s in SIM_POINTS]
+    rng.shuffle(base)
+    out = []
+    for i in range(n):
+        c, o, s = base[i % len(base)]
+        out.append({'container': c, 'order': o, 'sim_points': s, 'pattern': list(PACINGS[(i * 5 + 2) % len(PACINGS)]),
+                    'seed': rng.randint(0, 1 << 30)})
+    return out
+
+
+def run_codec_history(py4hw, hist):
+    """builds the codec along the history, exercises it after every construction step; returns a dict with 'bad' (None = agrees with the spec)."""
+    Wire = wire_base(py4hw)
+    rng = random.Random(hist['seed'])
+    log = []
+    try:
+        with quiet():
+            import py4hw.emulation.HILWrapperUART as H
+            hw = py4hw.HWSystem()
+            cont = hist['container']
+            if cont == 'top': cd = ce = cw = hw
+            elif cont == 'wrap': cd = ce = cw = py4hw.Logic(hw, 'hil')
+            elif cont == 'wrap2': cd = ce = cw = py4hw.Logic(py4hw.Logic(hw, 'board'), 'hil')
+            else:
+                cw = hw; cd = py4hw.Logic(hw, 'rx_side'); ce = py4hw.Logic(hw, 'tx_side')
+        W = {'ready': 1, 'index_in': rng.choice([2, 3, 4]), 'v_in': rng.choice([8, 32]), 'index_out': 3, 'set_index_in': 1, 'set_v_in': 1,
+             'set_index_out': 1, 'clk_pulse': 1, 'start_resp': 1}
+        wvin = rng.choice([16, 32])
+        with quiet():
+            w = {n: cw.wire(n, dict(W, valid=1, c=8)[n]) for n in REQ_CTOR}
+            w.update(vin=cw.wire('resp_v', wvin), size=cw.wire('resp_size', 8), ser_ready=cw.wire('ser_ready', 1),
+                     ser_valid=cw.wire('ser_valid', 1), ser_v=cw.wire('ser_v', 8))
+        outputs = [(rng.randint(0, (1 << wvin) - 1), rng.choice([1, 2, 4, 8, rng.randint(MIN_K, 10)])) for _ in range(8)]
+        st = {'dec': None, 'enc': None, 'events': [], 'rx': [], 'cycles': 0}
+        rdy = ready_source(tuple(hist['pattern']), rng, w['ser_valid'])
+
+        def step():
+            r = rdy()
+            if w['ser_valid'].get() and r: st['rx'].append(w['ser_v'].get())
+            w['ser_ready'].put(r)
+            with quiet():
+                hw.getSimulator().clk(1)
+            st['cycles'] += 1
+            row = [w[n].get() for n in REQ_WIRES]
+            st['events'] += ev_of_row(row)
+            if w['set_index_out'].get():
+                v, k = outputs[w['index_out'].get()]
+                w['vin'].put(v); w['size'].put(k)
+
+        def send(chars):
+            for ch in chars:
+                for g in range(rng.choice([0, 0, 1, 3])):
+                    w['valid'].put(0); w['c'].put(rng.choice(SPECIAL + DIGITS)); step()
+                w['valid'].put(1); w['c'].put(ch)
+                for _ in range(40):
+                    taken = w['ready'].get() == 1
+                    step()
+                    if taken: break
+                else:
+                    return 'the decoder never raised ready for character %r' % chr(ch)
+                w['valid'].put(0)
+            return None
+
+        def settle(n_resp_chars):
+            budget = 60 + 40 * (n_resp_chars + 2) * (100 // max(pace_percent(tuple(hist['pattern'])), 1) + 1)
+            while budget > 0 and (len(st['rx']) < n_resp_chars or (st['dec'] is not None and st['dec'].state != 1)
+                                  or (st['enc'] is not None and st['enc'].state != 0)):
+                step(); budget -= 1
+            for _ in range(5): step()
+
+        def exercise(tag, cmds):
+            """send the commands one by one; after each, wait for the decoder (and the response, for O) to finish; judge."""
+            for kind, arg in cmds:
+                del st['events'][:]; del st['rx'][:]
+                bad = send(encode([(kind, arg)]))
+                exp_ev = py_expected([(kind, arg)], W)
+                exp_rx = []
+                if kind == 'O' and st['enc'] is not None:
+                    v, k = outputs[hexval(arg) % (1 << W['index_out'])]
+                    exp_rx = py_response(v, k)
+                settle(len(exp_rx))
+                log.append({'phase': tag, 'cmd': cmds_text([(kind, arg)]), 'events': [list(e) for e in st['events']],
+                            'received': ''.join(chr(x) for x in st['rx'])})
+                if bad: return '%s: %s' % (tag, bad)
+                if [list(e) for e in st['events']] != [list(e) for e in exp_ev]:
+                    return '%s: command %s decoded as %s, expected %s' % (tag, cmds_text([(kind, arg)]), st['events'], exp_ev)
+                if st['rx'] != exp_rx:
+                    return '%s: response to %s is %r, expected %r' % (tag, cmds_text([(kind, arg)]), ''.join(chr(x) for x in st['rx']),
+                                                                     ''.join(chr(x) for x in exp_rx))
+            return None
+
+        def direct_response(tag):
+            """encoder alone: the bench pulses start_resp itself."""
+            v, k = outputs[rng.randrange(8)]
+            del st['rx'][:]
+            w['vin'].put(v); w['size'].put(k); w['start_resp'].put(1); step(); w['start_resp'].put(0)
+            settle(k + 2)
+            log.append({'phase': tag, 'cmd': 'start_resp pulse (%d, %d)' % (v, k), 'received': ''.join(chr(x) for x in st['rx'])})
+            if st['rx'] != py_response(v, k):
+                return '%s: response is %r, expected %r' % (tag, ''.join(chr(x) for x in st['rx']), ''.join(chr(x) for x in py_response(v, k)))
+            return None
+
+        def add(which):
+            with quiet():
+                if which == 'dec':
+                    st['dec'] = H.CMDRequest(cd, 'cmd_req', *[w[n] for n in REQ_CTOR])
+                else:
+                    st['enc'] = H.CMDResponse(ce, 'cmd_resp', w['vin'], w['size'], w['start_resp'], w['ser_ready'], w['ser_valid'], w['ser_v'])
+
+        def some_cmds(with_o):
+            cmds = []
+            for _ in range(rng.randint(2, 4)):
+                kind = rng.choice('IVK' + ('OOO' if with_o else ''))
+                if kind == 'K': cmds.append(('K', [ord(ch) for ch in '%X' % rng.randint(0, 5)]))
+                elif kind == 'O': cmds.append(('O', [ord(ch) for ch in '%X' % rng.randint(0, 7)]))
+                else: cmds.append((kind, random_digits(rng, 6)))
+            if with_o and not any(k == 'O' for k, _ in cmds): cmds.append(('O', [ord('%X' % rng.randint(0, 7))]))
+            return cmds
+
+        sp = hist['sim_points']
+        first, second = ('dec', 'enc') if hist['order'] == 'dec-enc' else ('enc', 'dec')
+        bad = None
+        if 'empty' in sp:
+            for _ in range(2): step()                         # the simulator exists before any block does
+        add(first)
+        if 'between' in sp:
+            bad = exercise('after the first block', some_cmds(False)) if first == 'dec' else direct_response('after the first block')
+        if bad is None:
+            add(second)
+            bad = exercise('complete circuit', some_cmds(True))
+        return {'hist': hist, 'bad': bad, 'log': log, 'cycles': st['cycles'], 'outputs': outputs, 'widths': W}
+    except Exception as ex:
+        del Wire.prepared[:]
+        return {'hist': hist, 'bad': 'the simulation raised %s: %s' % (type(ex).__name__, ex), 'log': log, 'cycles': 0, 'outputs': [], 'widths': {}}
+
+
+def hist_replay(res):
+    return {'what': 'codec built along a construction history: ' + res['bad'], 'block': 'CMDRequest+CMDResponse', 'kind_of_case': 'history',
+            'history': res['hist'],
+            'history_legend': 'container: where the blocks are instantiated (top = HWSystem, wrap = Logic under it, wrap2 = two levels, split = one wrapper each); '
+                              'order: instantiation order; sim_points: when hw.getSimulator().clk() was already used (empty = before any block, between = after the '
+                              'first block, which is then exercised); the simulator is re-obtained with hw.getSimulator() for every clock edge',
+            'outputs(value,nibbles)': [list(x) for x in res['outputs']], 'widths': res['widths'], 'log': res['log'][-8:]}
+
 # ------------------------------------------------------------------ shrinking a failing case
 def shrink_request(py4hw, run):
     """smallest failing variant found: a single command of the stream, tight schedule, shorter digit string."""
@@ -558,6 +716,11 @@ def replay(py4hw, rp):
         bad = xf != exp or raised is not None
         print('verdict  :', 'differs' if bad else 'agrees with the specification now')
         return 1 if bad else 0
+    if rp.get('kind_of_case') == 'history':
+        res = run_codec_history(py4hw, rp['history'])
+        for e in res['log']: print(e)
+        print('verdict  :', res['bad'] or 'agrees with the specification now')
+        return 1 if res['bad'] else 0
     import json
     print(json.dumps(rp, indent=1)[:4000])
     return 0
